@@ -6,6 +6,7 @@ CONSTANTS
   KeyOf <- Keys4
   FindPrevStrict = TRUE
   InitList <- InitAB
+  EarlyFindPrev = FALSE
   EraseAtObserved = FALSE
 INVARIANTS LinOK ListMatches FinalSorted
 CHECK_DEADLOCK FALSE
